@@ -222,10 +222,24 @@ def main():
         violations=len(violations),
     )
     if not no_ev:
-        os.makedirs(os.path.join(ROOT, 'evidence'), exist_ok=True)
-        tmp = os.path.join(ROOT, 'evidence', pid + '.json.tmp')
-        json.dump(ev, open(tmp, 'w'), indent=1)
-        os.replace(tmp, os.path.join(ROOT, 'evidence', pid + '.json'))
+        os.makedirs(os.path.join(ROOT, 'evidence', 'by_tier'), exist_ok=True)
+        # the last run of the *other* tier is summarised (its full evidence stays in evidence/by_tier/)
+        other = os.path.join(ROOT, 'evidence', 'by_tier', '%s.%s.json' % (pid, 'thorough' if tier == 'quick' else 'quick'))
+        if os.path.exists(other):
+            try:
+                o = json.load(open(other))
+                ev['coverage']['other_tier_last_run'] = dict(
+                    tier=o['tier'], file=os.path.relpath(other, ROOT), obligations=o['coverage'].get('obligations'),
+                    discharged=o['coverage'].get('discharged'), inconclusive=len(o['coverage'].get('inconclusive', [])),
+                    violations=o.get('violations'), wall_s=o.get('wall_s'), paths_explored=o['coverage'].get('paths_explored'),
+                    solver_queries=o['coverage'].get('solver_queries'), finished_at=o.get('finished_at'))
+            except Exception:
+                pass
+        ev['finished_at'] = time.strftime('%Y-%m-%dT%H:%M:%SZ', time.gmtime())
+        for dst in (os.path.join(ROOT, 'evidence', pid + '.json'), os.path.join(ROOT, 'evidence', 'by_tier', '%s.%s.json' % (pid, tier))):
+            tmp = dst + '.tmp'
+            json.dump(ev, open(tmp, 'w'), indent=1)
+            os.replace(tmp, dst)
 
     # ---------------- report
     for row in lem_rows:
